@@ -150,14 +150,14 @@ def case_charfunc(dim, dtype, bw):
     return CaseResult(fails=fails, states=len(alpha), transitions=2, traces=2, outcome=f"{tag}:{dtype}:{bw}:{len(set(h.tolist()))}")
 
 
-def case_damping(dim, field_type, dtype, width, extra, pattern, origins=None):
+def case_damping(dim, field_type, dtype, width, extra, pattern, origins=None, length=1.0):
     import sopht.numeric.eulerian_grid_ops as spne
 
     real_t = np.dtype(dtype).type
     eps = float(np.finfo(real_t).eps)
     base = max(2 * width + 1, 3)
     shape = tuple(base + extra + (i if extra else 0) for i in range(dim))
-    dx = 1.0 / shape[-1]
+    dx = length / shape[-1]  # length: physical extent along x (the ramp is a function of distance / dx only)
     pos = position_field(shape, dx, real_t, origins)
     kw = dict(width=width, dx=real_t(dx), x_grid_field=pos[0], y_grid_field=pos[1], real_t=real_t)
     if dim == 3:
@@ -349,6 +349,15 @@ def run(r) -> None:
             for w in (1, 2, 3):
                 for pat in ("constant", "generic", "impulse-inner-edge"):
                     damp.append(dict(dim=d, field_type=ft, dtype="float64", width=w, extra=1, pattern=pat, origins=[-0.37, 1.21, 0.043][:d]))
+    # domain lengths far from 1, with and without a shifted origin
+    for d in (2, 3):
+        for ft in (("scalar",) if d == 2 else ("scalar", "vector")):
+            for w in (1, 2, 3):
+                for pat in ("constant", "generic", "impulse-inner-edge"):
+                    for length in (37.0, 0.01):
+                        for dt in dts:
+                            damp.append(dict(dim=d, field_type=ft, dtype=dt, width=w, extra=1, pattern=pat, length=length))
+                        damp.append(dict(dim=d, field_type=ft, dtype="float64", width=w, extra=1, pattern=pat, length=length, origins=[-0.37 * length, 1.21 * length, 0.043 * length][:d]))
     r.run_cases("boundary-damping", "damping", damp, chunksize=8)
     orders = (1, 2, 3) if quick else (1, 2, 3, 4)
     r.run_cases("filter-symbol", "filter_symbol", [dict(ftype=t, order=o, field_type=ft) for t in ("multiplicative", "convolution") for o in orders for ft in ("scalar", "vector")])
